@@ -180,6 +180,7 @@ def ellipsoid_r_geocentric(ellipsoid, lat):
     """
     errtext = 'Invalid excentricity value in ellipsoid model.'
     inrange(ellipsoid[1], 0, 1, exclude='upper', text=errtext)
+    lat = np.asarray(lat, dtype=float)
 
     if ellipsoid[1] == 0:
         r = np.ones(np.shape(lat)) * ellipsoid[0]
@@ -213,6 +214,7 @@ def ellipsoid_r_geodetic(ellipsoid, lat):
     """
     errtext = 'Invalid excentricity value in ellipsoid model.'
     inrange(ellipsoid[1], 0, 1, exclude='upper', text=errtext)
+    lat = np.asarray(lat, dtype=float)
 
     if ellipsoid[1] == 0:
         r = np.ones(np.shape(lat)) * ellipsoid[0]
@@ -321,6 +323,7 @@ def cart2geocentric(x, y, z, lat0=None, lon0=None, za0=None, aa0=None):
 
     .. Ported from atmlab. Original author: Bengt Rydberg
     """
+    x, y, z = _double(x, y, z)
     r = np.sqrt(x**2 + y**2 + z**2)
 
     if np.any(r == 0):
@@ -364,6 +367,7 @@ def geocentric2cart(r, lat, lon):
 
     .. Ported from atmlab. Original author: Bengt Rydberg
     """
+    r, lat, lon = _double(r, lat, lon)
     if np.any(r == 0):
         raise Exception("This set of functions does not handle r = 0.")
 
@@ -403,6 +407,7 @@ def cart2geodetic(x, y, z, ellipsoid=None):
     errtext = 'Invalid excentricity value in ellipsoid model.'
     inrange(ellipsoid[1], 0, 1, exclude='upper', text=errtext)
 
+    x, y, z = _double(x, y, z)
     lon = np.rad2deg(np.arctan2(y, x))
     B0 = np.arctan2(z, np.hypot(x, y))
     B = np.full(B0.shape, np.inf)
@@ -447,6 +452,7 @@ def geodetic2cart(h, lat, lon, ellipsoid=None):
     errtext = 'Invalid excentricity value in ellipsoid model.'
     inrange(ellipsoid[1], 0, 1, exclude='upper', text=errtext)
 
+    h, lat, lon = _double(h, lat, lon)
     a = ellipsoid[0]
     e2 = ellipsoid[1] ** 2
 
@@ -544,7 +550,8 @@ def great_circle_distance(lat1, lon1, lat2, lon2, r=None):
 
     .. Taken from https://stackoverflow.com/a/29546836/9144990
     """
-    lon1, lat1, lon2, lat2 = map(np.radians, [lon1, lat1, lon2, lat2])
+    lon1, lat1, lon2, lat2 = map(np.radians,
+                                 _double(lon1, lat1, lon2, lat2))
 
     dlon = lon2 - lon1
     dlat = lat2 - lat1
@@ -643,6 +650,7 @@ def cartposlos2geocentric(x, y, z, dx, dy, dz, ppc=None,
         x, y, z, dx, dy, dz, ppc = _broadcast(x, y, z, dx, dy, dz, ppc)
     else:
         x, y, z, dx, dy, dz = _broadcast(x, y, z, dx, dy, dz)
+    dx, dy, dz = _double(dx, dy, dz)
 
     r, lat, lon = cart2geocentric(x, y, z, lat0, lon0, za0, aa0)
 
@@ -1127,3 +1135,10 @@ def _broadcast(*args):
     if not shape:
         shape = (1,)
     return [np.broadcast_to(array, shape) for array in args]
+
+
+def _double(*args):
+    """The arguments in double precision (float32 angles and metres would
+    otherwise be processed in single precision: 0.5 m at the Earth's radius).
+    """
+    return [np.asarray(array, dtype=np.float64) for array in args]
